@@ -38,6 +38,12 @@ def serializeCompact7797 (P : Prims) (E : Env) (K : KeyEnv) (C : JwsCtx) (regOpt
       if isUrlSafeChars payload then pure (hseg ++ [46] ++ payload ++ [46] ++ b64e sig, prot')
       else pure (hseg ++ [46, 46] ++ b64e sig, prot')
 
+/-- `if payload: to_bytes(payload) else payload_segment` -/
+def detachedOr (det : Option Bytes) (p : Bytes) : Bytes :=
+  match det with
+  | some (x :: xs) => x :: xs
+  | _ => p
+
 /-- `rfc7797.deserialize_compact(value, key, payload=…)`. -/
 def deserializeCompact7797 (P : Prims) (E : Env) (K : KeyEnv) (C : JwsCtx) (regOpt : Option JwsRegistry)
     (algorithms : Option (List String)) (value : Bytes) (detached : Option Bytes) (key : KeyArg) :
@@ -51,16 +57,14 @@ def deserializeCompact7797 (P : Prims) (E : Env) (K : KeyEnv) (C : JwsCtx) (regO
       let reg := regOpt.getD (C.mk7797 algorithms)
       if isTrue (← pyGetItemStr prot "b64") then deserializeCompact P E K reg value key
       else do
-        let payload := match detached with
-          | some (x :: xs) => x :: xs          -- `if payload:`
-          | _ => p
+        let payload := detachedOr detached p
         reg.checkHeader prot
         let (k, _) ← guessKey P E K key prot false
         k.checkUse "sig"
         let alg ← reg.getAlg (← pyGetItemStr prot "alg")
         alg.checkKeyType k
         let sig ← b64d s
-        if !(← jwsVerify P E alg (h ++ [46] ++ payload) sig k) then throw .badSignature
+        ensure (← jwsVerify P E alg (h ++ [46] ++ payload) sig k) .badSignature
         pure { prot, payload, hseg := h, pseg := p, sseg := s }
   | _ => .error .valueError
 
@@ -110,7 +114,7 @@ def deserializeFlat7797 (P : Prims) (E : Env) (K : KeyEnv) (C : JwsCtx) (regOpt 
     if isTrue ((b64src.get? "b64").getD .null) then deserializeFlat P E K reg v key
     else do
       let payload := strBytes v.payload
-      if !(← verifySignature P E K reg m v.sig payload key) then throw .badSignature
+      ensure (← verifySignature P E K reg m v.sig payload key) .badSignature
       pure { payload, members := [m] }
 
 /-- `rfc7797.deserialize_json` on a general value: always the RFC 7515 path. -/
